@@ -24,6 +24,13 @@ and compared with the model's `PgFdr.C17.cutoff` and with the oracle's Fraction 
 exactly one of the finite PEPs or 1.0.  30 % of the cases draw PEPs from clusters that differ only beyond the 7th
 significant digit.
 
+Experimental design / file list (addendum 5): 35 % of the in-process cases and half of the
+`python -m picked_group_fdr.quantification` runs carry a design (`--experimental_design_file` layout, or the
+deprecated `--file_list_file` layout in process) whose experiments are mostly NOT in alphabetical order; the
+real parsers read the rendered file, `add_precursor_quants` gets the data frame, the model runs
+`PgFdr.C12.quantifyDesign` on the harness's own normalisation of the lines, and every per-experiment column is
+looked up BY HEADER NAME and compared with the recomputation for the experiment of that name.
+
 Numbers: intensities are small dyadic rationals (integers and halves), PEPs are k/1024, so every
 float sum the code performs is exact; iBAQ quotients are compared after one correctly rounded
 division of the model's exact rational.  A case whose running PEP mean rounds onto the FDR level
@@ -132,11 +139,123 @@ def model_row(r):
         "pp": r["pp"],
         "silac": [num_val(x) for x in r["silac"]],
         "tmt": [num_val(x) for x in r["tmt"]],
+        "raw": row_raw(r),
     }
 
 
 def all_rows(case):
     return [r for f in case["files"] for r in f]
+
+
+# ----------------------------------------------------------------------------------------
+# experimental design / file list
+# ----------------------------------------------------------------------------------------
+DESIGN_EXPS = ["treated", "control", "alpha", "E1", "E2", "E10", "b", "B", "zeta", "Mock"]
+DESIGN_RAWS = ["raw1", "raw2", "raw3", "raw10", "fileA", "fileB", "run_c", "Z_run"]
+
+
+def render_design(path, design):
+    """MaxQuant experimentalDesignTemplate layout (header Name / Fraction / Experiment [/ Condition], any column
+    order) or the headerless file-list layout (raw_file <tab> condition [<tab> experiment [<tab> fraction]])"""
+    with open(path, "w", newline="") as f:
+        w = csv.writer(f, delimiter="\t")
+        cell = lambda v: "" if v is None else str(v)
+        if design["kind"] == "mq":
+            cols = design["columns"]
+            w.writerow(cols)
+            for l in design["lines"]:
+                d = {"Name": l["name"], "Fraction": cell(l["frac"]), "Experiment": cell(l["exp"]), "Condition": cell(l.get("cond"))}
+                w.writerow([d[c] for c in cols])
+        else:
+            for l in design["lines"]:
+                w.writerow([l["name"], cell(l.get("cond")), cell(l["exp"]), cell(l["frac"])][: design["ncols"]])
+
+
+def design_stem(name):
+    """pathlib.Path(name).stem for the generated names (forward slashes, at most one extension)"""
+    base = name.rsplit("/", 1)[-1]
+    if "." in base[1:]:
+        base = base[: base.rindex(".")]
+    return base
+
+
+def normalise_design(design):
+    """the harness's own reading of parsers.parse_mq_experimental_design / parse_triqler_file_list +
+    normalize_experimental_design: [[raw file stem, experiment, fraction as str() prints the value pandas holds]].
+    Fraction: an integer column when every cell holds an integer, otherwise floats with -1.0 for an empty cell;
+    Experiment: an empty cell is the file stem."""
+    lines = design["lines"]
+    has_exp = design["kind"] == "mq" or design["ncols"] >= 3
+    has_frac = design["kind"] == "mq" or design["ncols"] >= 4
+    fr = [l["frac"] if has_frac else None for l in lines]
+    ints = all(x is not None for x in fr) and len(fr) > 0
+    out = []
+    for l, x in zip(lines, fr):
+        stem = design_stem(l["name"])
+        e = l["exp"] if has_exp and l["exp"] is not None else stem
+        out.append([stem, e, str(int(x)) if ints else repr(float(-1 if x is None else x))])
+    return out
+
+
+def o_design(case):
+    """None (no design, or a design without lines: the code falls back to the parsed experiments), {"err": enum},
+    or {"exps": first occurrences in design order, "map": {stem: (experiment, fraction)}}"""
+    d = case.get("design")
+    if not d:
+        return None
+    norm = normalise_design(d)
+    if not norm:
+        return None
+    names = [x[0] for x in norm]
+    if len(set(names)) != len(names):
+        return {"err": "design_duplicate_name"}
+    exps = []
+    for _, e, _ in norm:
+        if e not in exps:
+            exps.append(e)
+    return {"exps": exps, "map": {n: (e, f) for n, e, f in norm}}
+
+
+def row_raw(r):
+    return r.get("raw", "raw_" + r["exp"])
+
+
+def gen_design(rng, exps_hint=None):
+    """a design: 1-5 raw files over 1-4 experiments, experiments mostly NOT in alphabetical order"""
+    nraw = rng.choice([1, 2, 3, 3, 4, 5])
+    raws = rng.sample(DESIGN_RAWS, nraw)
+    exps = rng.sample(DESIGN_EXPS, min(nraw, rng.choice([1, 2, 2, 3, 3, 4])))
+    if len(exps) > 1 and rng.random() < 0.75 and exps == sorted(exps):
+        exps.reverse()
+    kind = rng.choice(["mq", "mq", "mq", "filelist"])
+    # every experiment gets a raw file, the others are spread
+    assign = list(exps) + [rng.choice(exps) for _ in range(nraw - len(exps))]
+    if rng.random() < 0.5:
+        head, tail = assign[:1], assign[1:]
+        rng.shuffle(tail)
+        assign = head + tail  # keeps exps[0] first, later experiments may first occur in any order
+    frac_mode = rng.choice(["ints", "ints", "some_empty", "all_empty"])
+    lines = []
+    for raw, e in zip(raws, assign):
+        deco = rng.choice(["", "", ".raw", ".d", "dir/sub/", "dir/"])
+        name = (deco + raw) if deco.endswith("/") else (raw + deco)
+        if deco.endswith("/") and rng.random() < 0.5:
+            name += ".raw"
+        frac = rng.choice([1, 2, 3, 12])
+        if frac_mode == "all_empty" or (frac_mode == "some_empty" and rng.random() < 0.4):
+            frac = None
+        lines.append({"name": name, "exp": e, "frac": frac, "cond": rng.choice(["c1", "c2", "ctrl", None])})
+    if rng.random() < 0.15:  # an empty Experiment cell: the experiment is the file stem
+        rng.choice(lines)["exp"] = None
+    d = {"kind": kind, "lines": lines}
+    if kind == "mq":
+        cols = ["Name", "Fraction", "Experiment"] + (["Condition"] if rng.random() < 0.4 else [])
+        if rng.random() < 0.3:
+            rng.shuffle(cols)
+        d["columns"] = cols
+    else:
+        d["ncols"] = rng.choice([4, 4, 4, 3, 2])
+    return d
 
 
 # ----------------------------------------------------------------------------------------
@@ -228,12 +347,24 @@ def recompute(case):
     for gi, g in enumerate(groups):
         for p in g:
             home[p] = gi  # the reported group of a protein (groups are disjoint in all but a few generated cases)
+    design = o_design(case)
+    if design is not None and "err" in design:
+        return design
     parsed = []
     for r in all_rows(case):
         ps = o_proteins(r["prot"])
         if ps:
+            if design is not None:
+                # experiment and fraction of the row's raw file in the design; a raw file without a line is an error
+                if row_raw(r) not in design["map"]:
+                    return {"err": "raw_file_not_in_design"}
+                e, fr = design["map"][row_raw(r)]
+                r = dict(r, exp=e, frac=fr)
             parsed.append((r, ps))
-    exps = sorted({r["exp"] for r, _ in parsed})
+    if design is not None:
+        exps = list(design["exps"])  # design order, every experiment of the design (also without rows)
+    else:
+        exps = sorted({r["exp"] for r, _ in parsed})
     n_silac = len(parsed[0][0]["silac"]) if parsed else -1
     n_tmt = len(parsed[0][0]["tmt"]) // 3 if parsed else -1
     if n_silac in (2, 3):
@@ -449,6 +580,10 @@ def run_cli(case):
         out = os.path.join(tmp, "out.txt")
         level = rat_to_float(case["level"])
         tail = ["--protein_groups_out", out, "--fasta", fasta, "--psm_fdr_cutoff", repr(level), "--skip_lfq"]
+        if case.get("design"):
+            dpath = os.path.join(tmp, "experimentalDesignTemplate.txt")
+            render_design(dpath, case["design"])
+            tail += ["--experimental_design_file" if case["design"]["kind"] == "mq" else "--file_list_file", dpath]
         if case["cli"] == "quant":
             pg = os.path.join(tmp, "proteinGroups.txt")
             with open(pg, "w", newline="") as f:
@@ -507,10 +642,30 @@ def cli_abstract(case, impl_out):
         groups = case["groups"]
     else:  # the reported groups are read back from the written table
         groups = [row["ids"].split(";") for row in impl_out["rows"]]
-    return {"files": files, "groups": groups, "level": case["level"], "ibaq": rec["ibaq"], "layout": case["layout"]}
+    return {"files": files, "groups": groups, "level": case["level"], "ibaq": rec["ibaq"], "layout": case["layout"],
+            "design": case.get("design")}
 
 
-def gen_cli_case(rng, flow):
+def gen_cli_case(rng, flow, with_design=False):
+    case = _gen_cli_case(rng, flow)
+    if with_design:
+        # --experimental_design_file (the only layout the command line can use, see notes/C12.md): 2-4 raw files, the
+        # experiments in NON-alphabetical design order
+        d = None
+        for _ in range(50):
+            d = gen_design(rng)
+            norm = normalise_design(d)
+            exps = [e for i, (_, e, _) in enumerate(norm) if e not in [x[1] for x in norm[:i]]]
+            if d["kind"] == "mq" and len(exps) >= 2 and exps != sorted(exps):
+                break
+        stems = [design_stem(l["name"]) for l in d["lines"]]
+        for r in case["files"][0]:
+            r["raw"] = rng.choice(stems)
+        case["design"] = d
+    return case
+
+
+def _gen_cli_case(rng, flow):
     nprot = rng.choice([3, 4, 5])
     names = ["P%d" % (i + 1) for i in range(nprot)]
     seqs = {}
@@ -584,14 +739,21 @@ class P(Prop):
         "proteins with REV__/rev_/CON__ variants, rows unique / shared / partly unknown / decoy-mixed; PSM FDR levels on "
         "and off the attained running means; in 30 % of the cases the PEPs come from clusters around non-dyadic values "
         "(0.1, 0.2, 0.0123456789, ...) whose members differ only beyond the 7th significant digit (not representable in "
-        "single precision); non-trivial = at least one group keeps a used precursor and at least one "
+        "single precision); 35 % of the cases carry an experimental design (MaxQuant template layout with permuted columns / "
+        "optional Condition, or the headerless file list with 2-4 columns): 1-5 raw files (plain, with extension, with "
+        "directories) over 1-4 of 10 experiment names, design order not alphabetical in ~75 % of the multi-experiment designs, "
+        "experiments without rows, empty Experiment / Fraction cells, rarely an unlisted raw file, a repeated name, a design "
+        "without lines; non-trivial = at least one group keeps a used precursor and at least one "
         "row is left out; distinct by sha1 of the case"
     )
     assumptions = [
         "float sums of the generated dyadic intensities and PEPs are exact; float division is correctly rounded (IEEE); "
         "for the non-dyadic PEP clusters a running mean of >= 2 values within 2^-40 (relative) of the level is a near tie (skipped, counted)",
         "csv/float parsing of the rendered evidence fields returns the rendered doubles (repr round trip)",
-        "only discard_shared_peptides=True (hard-coded in do_quantification) and no experimental-design file are modelled",
+        "only discard_shared_peptides=True (hard-coded in do_quantification) is modelled",
+        "experimental design: the pandas parsing and normalize_experimental_design are restated by the harness (normalise_design: "
+        "file stem, empty Experiment = stem, Fraction printed as the int / float pandas holds); names are non-numeric and none of "
+        "pandas' NA spellings; the model starts from the normalised lines",
     ]
     trusted_extra = [
         "rendering of abstract evidence rows to evidence.txt in harness/props/C12.py (the parser's column picking, '' -> 0.0 / NaN conventions are restated there)",
@@ -716,7 +878,30 @@ class P(Prop):
         else:
             level = rng.choice([0.0, 0.001, 0.01, 0.01, 0.05, 0.1, 0.25, 1.0])
         ibaq = [[p, rng.choice([0, 0, 1, 2, 3, 7, 12])] for p in sorted(set(reported)) if rng.random() < 0.8]
-        return {"files": files, "groups": groups, "level": rat(level), "ibaq": ibaq, "layout": layout}
+        case = {"files": files, "groups": groups, "level": rat(level), "ibaq": ibaq, "layout": layout}
+        if rng.random() < 0.35:
+            self._add_design(case, rng)
+        return case
+
+    @staticmethod
+    def _add_design(case, rng):
+        """an experimental design / file list over the case's evidence rows: every row gets a raw file of the design
+        (the Experiment / Fraction columns of the evidence file are then ignored by the code)"""
+        d = gen_design(rng)
+        stems = [design_stem(l["name"]) for l in d["lines"]]
+        for r in all_rows(case):
+            r["raw"] = rng.choice(stems)
+        x = rng.random()
+        rows = all_rows(case)
+        if x < 0.03 and rows:
+            rng.choice(rows)["raw"] = "unlisted_raw"  # KeyError in the code when the parser yields this row
+        elif x < 0.06 and len(d["lines"]) >= 2:
+            d["lines"][-1]["name"] = d["lines"][0]["name"]  # pandas refuses a non-unique index
+            for r in rows:
+                r["raw"] = rng.choice([design_stem(l["name"]) for l in d["lines"]])
+        elif x < 0.08 and d["kind"] == "mq":
+            d["lines"] = []  # header only: an empty mapping is falsy, the run is the run without a design
+        case["design"] = d
 
     def exhaustive_cases(self, tier):
         """every pair of evidence rows over 6 protein lists x 3 PEPs x 2 experiments (second row: same or
@@ -787,10 +972,31 @@ class P(Prop):
                 ibaq, {}, {}, True, 2, True, True, 1, {"groups": [], "groupLabels": []}, 0.01
             )
             level = rat_to_float(case["level"])
-            pgrs, post_err_probs = score_type.get_quantification_parser()(
-                paths, paths, protein_groups, pgrs, [None], None, True,
-                score_type=score_type, suppress_missing_peptide_warning=True,
-            )
+            experimental_design = None
+            if case.get("design"):
+                import argparse
+                from picked_group_fdr import quantification
+
+                dpath = os.path.join(tmp, "experimentalDesignTemplate.txt")
+                render_design(dpath, case["design"])
+                mq = case["design"]["kind"] == "mq"
+                # the real selection + pandas parsing + normalisation of the design
+                experimental_design = quantification.get_experimental_design(
+                    argparse.Namespace(experimental_design_file=dpath if mq else None, file_list_file=None if mq else dpath)
+                )
+            try:
+                pgrs, post_err_probs = score_type.get_quantification_parser()(
+                    paths, paths, protein_groups, pgrs, [None], experimental_design, True,
+                    score_type=score_type, suppress_missing_peptide_warning=True,
+                )
+            except KeyError as e:
+                if experimental_design is not None and any("file_mapping[raw_file]" in (fr.line or "") for fr in __import__("traceback").extract_tb(e.__traceback__)):
+                    return {"err": "raw_file_not_in_design"}
+                raise
+            except ValueError as e:
+                if experimental_design is not None and "index must be unique" in str(e):
+                    return {"err": "design_duplicate_name"}
+                raise
             attached = [[self._pq(q) for q in pgr.precursorQuants] for pgr in pgrs]
             peps = [enc_pep(x[0]) for x in post_err_probs]
             # the cutoff is OBSERVED FROM OUTSIDE: every value the real append_quant_columns hands to the precursor
@@ -917,13 +1123,16 @@ class P(Prop):
             case = cli_abstract(case, impl_out)
         if self._near_tie(case):
             return None
-        return {
+        req = {
             "op": "quant",
             "rows": [model_row(r) for r in all_rows(case)],
             "groups": case["groups"],
             "level": case["level"],
             "ibaq": case["ibaq"],
         }
+        if case.get("design"):
+            req["design"] = normalise_design(case["design"])
+        return req
 
     def model_view(self, case, resp, impl_out):
         if case.get("cli"):
@@ -1006,6 +1215,21 @@ class P(Prop):
         f.append("rows=%s" % (n if n < 8 else "8+"))
         if any(r["pp"] == "nan" for r in all_rows(case)):
             f.append("has_mbr")
+        d = case.get("design")
+        f.append("design=" + (d["kind"] if d else "none"))
+        if d:
+            od = o_design(case)
+            if od is None:
+                f.append("design_without_lines")
+            elif "exps" in od:
+                f.append("design_experiments=%d" % len(od["exps"]))
+                if od["exps"] != sorted(od["exps"]):
+                    f.append("design_order_NOT_alphabetical")
+                used_e = {od["map"][row_raw(r)][0] for r in all_rows(case) if row_raw(r) in od["map"]}
+                if any(e not in used_e for e in od["exps"]):
+                    f.append("design_experiment_without_rows")
+                if any(x[2].endswith(".0") for x in normalise_design(d)):
+                    f.append("design_fraction_float")
         if any(not isinstance(r["pp"], str) and not _dyadic(unrat(r["pp"])) for r in all_rows(case)):
             f.append("peps_beyond_float32")
         if isinstance(impl_out, dict) and "groups" in impl_out:
@@ -1039,9 +1263,10 @@ class P(Prop):
             return None
         rng = random.Random(977 * int(ctx["seed"]) + 12)
         flows = ["quant", "quant", "quant", "quant", "main", "main"]
+        designs = [True, False, True, False, True, False]  # half of the runs of either command with --experimental_design_file
         if ctx["tier"] == "thorough":
-            flows = flows * 6
-        cases = [gen_cli_case(rng, f) for f in flows]
+            flows, designs = flows * 6, designs * 6
+        cases = [gen_cli_case(rng, f, wd) for f, wd in zip(flows, designs)]
         recs = lib.evaluate_cases(self, cases, ctx["model"])
         failures = []
         ok = 0
@@ -1057,6 +1282,7 @@ class P(Prop):
                 "cli_runs": len(cases),
                 "cli_runs_equal": ok,
                 "flows": {f: flows.count(f) for f in set(flows)},
+                "with_experimental_design_file": sum(1 for c in cases if c.get("design")),
                 "compared": "every quantification column of the written proteinGroups.txt (counts, id types, "
                 "Intensity / iBAQ incl. SILAC, theoretical peptide numbers, TMT reporter sums, evidence ids) with the "
                 "model's values formatted by '%.0f' (half-even on the double), and with the Fraction recomputation",
@@ -1077,6 +1303,16 @@ class P(Prop):
                 yield dict(case, files=files[:fi] + [rows[:i] + rows[i + 1 :]] + files[fi + 1 :])
         for i in range(len(case["groups"])):
             yield dict(case, groups=case["groups"][:i] + case["groups"][i + 1 :])
+        d = case.get("design")
+        if d:
+            yield dict(case, design=None)
+            refd = {row_raw(r) for r in all_rows(case)}
+            for i, l in enumerate(d["lines"]):
+                if design_stem(l["name"]) not in refd:
+                    yield dict(case, design=dict(d, lines=d["lines"][:i] + d["lines"][i + 1 :]))
+            for i, l in enumerate(d["lines"]):
+                if l["name"] != design_stem(l["name"]):
+                    yield dict(case, design=dict(d, lines=d["lines"][:i] + [dict(l, name=design_stem(l["name"]))] + d["lines"][i + 1 :]))
         lay = case["layout"]
         if lay["tmt"]:
             yield dict(case, layout=dict(lay, tmt=0), files=[[dict(r, tmt=[]) for r in rows] for rows in files])
